@@ -151,6 +151,26 @@ def run_nomail(ctx):
     ctx.cov['traces_validated_against_impl'] += len(texts)
     ctx.cov['distinct_nontrivial'] += len(set(texts))
     vlib.handle_results(ctx, 'nomail-reply', 'reply to RCPT TO built from control file text (filters/nomail.c) through the whole server', [], fails)
+    # multi-line replies built from configuration: the EHLO reply with the SIZE line for every magnitude of
+    # control/databytes (up to ULONG_MAX), with and without the other optional lines
+    fails, scs, meta = [], [], []
+    for db in (1, 999, 10 ** 9, 2 ** 32, 10 ** 17, 10 ** 18 - 1, 10 ** 18, 10 ** 19, 2 ** 63, 2 ** 64 - 2, 2 ** 64 - 1):
+        for extra in ({}, {'forcesslauth': b'0\n'}):
+            sc = W.base_scenario(extra_control=dict(extra, databytes=b'%d\n' % db))
+            sc.args = ['auth.example', '@CHKPW@', 'chkpw.record', 'x0']
+            sc.items = [('W',), ('S', b'EHLO client.example\r\n'), ('W',), ('S', b'QUIT\r\n'), ('W',)]
+            scs.append(sc); meta.append('ehlo databytes=%d' % db)
+    for case, r in zip(meta, session.run_sessions(ctx, b, scs)):
+        out = r.output()
+        lines = out.split(b'\r\n')[:-1]
+        if r.fault:
+            fails.append((case, 'session', 'fails memory-safety-or-crash: ' + r.fault[:200]))
+        elif not out.endswith(b'\r\n') or any(len(l) > 510 or len(l) < 4 or not l[:3].isdigit() or l[3:4] not in (b' ', b'-') or b'\r' in l or b'\n' in l for l in lines):
+            fails.append((case, out[-200:].hex(), 'fails line-shape (code, separator, CRLF or 512 octet limit)'))
+        elif not any(l.startswith(b'250') and b'SIZE %s' % case.split('=')[1].encode() in l for l in lines):
+            fails.append((case, out[-300:].hex(), 'fails text-complete-in-order (the SIZE line does not carry the configured value)'))
+        ctx.count('ehlo-size-sessions')
+    vlib.handle_results(ctx, 'ehlo-reply', 'EHLO reply built from control/databytes through the whole server', [], fails)
 
 
 def pred(case, impl):
